@@ -169,6 +169,29 @@ func c04RunRaw(cs c04Case) (fs []F) {
 			return
 		}
 	}
+	// storage identity after all the calls (also those on the full buffer): a write through the parent
+	// storage is seen through the buffer and the other way round
+	var idx []int
+	for i := 0; i < m.n; i++ {
+		if m.n > 64 && i >= 8 && i < m.n-8 {
+			continue
+		}
+		idx = append(idx, i)
+	}
+	for _, i := range idx {
+		root.SetSample(m.off+i, dyn.Tok(t, tok))
+		if g := b.Sample(i).Tok(); g != tok {
+			fail("storage-identity", "after %d calls a write to the parent storage at %d is not seen through the buffer (sample %d reads %d, want %d): the buffer no longer shares the storage it was made over", cs.N, m.off+i, i, g, tok)
+			return
+		}
+		tok = tk(tok + 1)
+		b.SetSample(i, dyn.Tok(t, tok))
+		if g := root.Sample(m.off + i).Tok(); g != tok {
+			fail("storage-identity", "after %d calls a write through the buffer at %d is not seen in the parent storage at %d (reads %d, want %d)", cs.N, i, m.off+i, g, tok)
+			return
+		}
+		tok = tk(tok + 1)
+	}
 	return
 }
 
